@@ -68,8 +68,13 @@ LongOp(s) ==
 Long(n) == LET s == H(SEED, n) len == 10 + Pick(s, 9, 51) IN
   [id |-> n, u |-> U, ops |-> [j \in 1..len |-> LongOp(H(s, 100 + j))]]
 
+\* "wide": the same random histories over a universe of U + 1 ATOMS, consecutive blocks of [0, 2^31 - 1] (the whole range of
+\* a rune) of very different sizes; an operation on atoms b..e is replayed on the real package as the range from the first
+\* element of atom b to the last element of atom e, and the judge weighs every atom by its size (GEN_U must be 5)
+Breaks == <<0, 1, 65, 1114112, 2147483646, 2147483647>>
+Wide(n) == Long(n) @@ [atoms |-> Breaks, top |-> 2147483647]
 Total == CASE FAMILY = "single" -> SingleTotal [] FAMILY = "pairs" -> (IF N >= PairTotal THEN PairTotal ELSE N) [] OTHER -> N
-History(n) == CASE FAMILY = "single" -> Single(n) [] FAMILY = "pairs" -> PairAt(n) [] OTHER -> Long(n)
+History(n) == CASE FAMILY = "single" -> Single(n) [] FAMILY = "pairs" -> PairAt(n) [] FAMILY = "wide" -> Wide(n) [] OTHER -> Long(n)
 
 RECURSIVE Collect(_)
 Collect(n) == IF n > Total THEN <<>> ELSE <<History(n)>> \o Collect(n + CHUNKS)
